@@ -1,9 +1,118 @@
 import LinfaSpec.Model.Proto
+import LinfaSpec.Model.Scalar
+import LinfaSpec.Model.Kernel
+import LinfaSpec.Model.Hier
 
 namespace LinfaSpec.Drv.C06
-open LinfaSpec.Proto
+open LinfaSpec.Proto LinfaSpec.Kernel LinfaSpec.Hier
 
-/-- stub: replaced when the property's model lands -/
-def handle (_toks : List String) : String := "bad-op"
+/-- `m=l` | `m=g:<eps>` | `m=p:<c>:<d>` (floats as hex bits) -/
+def parseMethod (s : String) : Option (Method Float) :=
+  match s.splitOn ":" with
+  | ["l"] => some .linear
+  | ["g", e] => (parseF64 e).map .gaussian
+  | ["p", c, d] => match parseF64 c, parseF64 d with
+    | some c, some d => some (.poly c d)
+    | _, _ => none
+  | _ => none
+
+def isLinear : Method Float → Bool
+  | .linear => true
+  | _ => false
+
+/-- values that went through libm are written `~…` (compared in ulps), the others exactly -/
+def fl (exact : Bool) (x : Float) : String := (if exact then "" else "~") ++ showF64c x
+
+def showCols (ex : Bool) (cols : List (Option (List Float))) : String :=
+  ";".intercalate (cols.map fun c => match c with
+    | some c => if c.isEmpty then "-" else showList (fl ex) c
+    | none => "panic")
+
+def handleDense (toks : List String) : Option String := do
+  let m ← (arg toks "m").bind parseMethod
+  let X ← argF64s2 toks "X"
+  let ci ← argNats toks "ci"
+  let ex := isLinear m
+  let K := dense m X
+  some (s!"ok size={dSize K} K={showList2 (fl ex) K} sum={showList (fl ex) (dSum K)} " ++
+    s!"diag={showList (fl ex) (dDiag K)} ut={showList (fl ex) (dUpper K)} " ++
+    s!"col={showCols ex (ci.map (dColumn K))}")
+
+def handleDDot (toks : List String) : Option String := do
+  let m ← (arg toks "m").bind parseMethod
+  let X ← argF64s2 toks "X"
+  let q ← argNat toks "q"
+  let R ← argF64s2 toks "R"
+  if R.length ≠ X.length ∨ R.any (·.length ≠ q) then none
+  else some ("ok " ++ showList2 (fl false) (dDot (dense m X) q R))
+
+def indptrOf (S : Csr Float) : List Nat :=
+  (S.foldl (fun (acc : List Nat × Nat) row => (acc.1 ++ [acc.2 + row.length], acc.2 + row.length)) ([0], 0)).1
+
+def handleSparse (toks : List String) : Option String := do
+  let m ← (arg toks "m").bind parseMethod
+  let X ← argF64s2 toks "X"
+  let k ← argNat toks "k"
+  let nb ← argNats2 toks "nb"
+  let ci ← argNats toks "ci"
+  let ex := isLinear m
+  match sparseFromFn m X k nb with
+  | none => some "panic"
+  | some S =>
+    let n := X.length
+    some (s!"ok size={n} indptr={showList toString (indptrOf S)} " ++
+      s!"indices={showList toString (S.flatten.map (·.1))} data={showList (fl ex) (S.flatten.map (·.2))} " ++
+      s!"sum={showList (fl ex) (sSum n S)} diag={showList (fl ex) (sDiag n S)} ut={showList (fl ex) (sUpper n S)} " ++
+      s!"col={showCols ex (ci.map fun i => some (sColumn n S i))}")
+
+def handleSDot (toks : List String) : Option String := do
+  let m ← (arg toks "m").bind parseMethod
+  let X ← argF64s2 toks "X"
+  let k ← argNat toks "k"
+  let nb ← argNats2 toks "nb"
+  let q ← argNat toks "q"
+  let R ← argF64s2 toks "R"
+  if R.length ≠ X.length ∨ R.any (·.length ≠ q) then none
+  else match sparseFromFn m X k nb with
+    | none => some "panic"
+    | some S => some ("ok " ++ showList2 (fl false) (sDot S q R))
+
+/-- `F::cast(1e-6)` for `f64` -/
+def thr : Float := Float.ofBits 0x3eb0c6f7a0b5ed8d
+
+def parseCrit (s : String) : Option (Crit Float) :=
+  match s.splitOn ":" with
+  | ["n", c] => c.toNat?.map .num
+  | ["d", d] => (parseF64 d).map .dist
+  | _ => none
+
+def mkSteps : List (List Nat) → List Float → Option (List (Step Float))
+  | [], [] => some []
+  | [a, b, sz] :: r, d :: ds => (mkSteps r ds).map fun t => { c1 := a, c2 := b, dis := d, size := sz } :: t
+  | _, _ => none
+
+/-- `hier n= steps=c1,c2,size;… dis=<hex,…> crit=n:<c>|d:<hex> ut=<upper triangle of the kernel>` -/
+def handleHier (toks : List String) : Option String := do
+  let n ← argNat toks "n"
+  let st ← argNats2 toks "steps"
+  let dis ← argF64s toks "dis"
+  let crit ← (arg toks "crit").bind parseCrit
+  let ut ← argF64s toks "ut"
+  let steps ← mkSteps st dis
+  match replay crit n steps with
+  | none => some "panic"
+  | some cl =>
+    some (s!"ok nc={cl.length} part={showList toString (canon (assign n cl))} " ++
+      s!"dist={showList (fl false) (ut.map (toDist thr))}")
+
+def handle (toks : List String) : String :=
+  let r := match toks with
+    | "dense" :: rest => handleDense rest
+    | "ddot" :: rest => handleDDot rest
+    | "sparse" :: rest => handleSparse rest
+    | "sdot" :: rest => handleSDot rest
+    | "hier" :: rest => handleHier rest
+    | _ => none
+  r.getD "bad-op"
 
 end LinfaSpec.Drv.C06
